@@ -201,9 +201,8 @@ def run(tier, seed):
     n = common.NPROC
     scratch = common.mkscratch("c20l")
     maxlen = 3 if thorough else 2
-    jobs = [subprocess.Popen([harness, "c20", str(maxlen), str(i), str(n), os.path.join(scratch, "d%d" % i)], stdout=subprocess.PIPE,
-                             stderr=subprocess.DEVNULL) for i in range(n)]
-    jobs.append(subprocess.Popen([harness, "c20cand", os.path.join(scratch, "cand")], stdout=subprocess.PIPE, stderr=subprocess.DEVNULL))
+    jobs = [common.FileProc([harness, "c20", str(maxlen), str(i), str(n), os.path.join(scratch, "d%d" % i)]) for i in range(n)]
+    jobs.append(common.FileProc([harness, "c20cand", os.path.join(scratch, "cand")]))
     inproc = 0
     untypable = 0
     for p in jobs:
